@@ -92,3 +92,67 @@ func roundedValue(v ssa.Value) bool {
 	}
 	return false
 }
+
+// S-bigint (C05): (*big.Int).Int64 keeps only the low 64 bits of a larger number. In the
+// interpreter it may be called only where the value is known to fit or where only the low
+// bits are wanted; everything else must go through the saturating scriptNumber.Int64.
+func ruleSBigInt(c *Ctx) {
+	pe := pEngine(c)
+	n := 0
+	for _, fn := range pkgFunctions(c.P, modPath+"/bscript/interpreter") {
+		for _, b := range fn.Blocks {
+			for _, ins := range b.Instrs {
+				call, ok := ins.(*ssa.Call)
+				if !ok {
+					continue
+				}
+				sc := call.Call.StaticCallee()
+				if sc == nil || (sc.String() != "(*math/big.Int).Int64" && sc.String() != "(*math/big.Int).Uint64") {
+					continue
+				}
+				n++
+				key := fmt.Sprintf("%s#%s", funcName(fn), instrOrdinal(call))
+				switch funcName(fn) {
+				case "(*bscript/interpreter.scriptNumber).Int64":
+					// must be dominated by the two failed range tests
+					pf := pe.pf(fn)
+					gt, lt := false, false
+					for x := b; x != nil; x = x.Idom() {
+						if len(x.Preds) != 1 {
+							continue
+						}
+						pr := x.Preds[0]
+						if iff, ok := pr.Instrs[len(pr.Instrs)-1].(*ssa.If); ok && pr.Succs[1] == x {
+							cn := pf.get(iff.Cond)
+							if cn.op == "call" && strings.Contains(cn.name, "GreaterThanInt") {
+								gt = true
+							}
+							if cn.op == "call" && strings.Contains(cn.name, "LessThanInt") {
+								lt = true
+							}
+						}
+					}
+					c.Check(gt && lt, "S-bigint", key, call.Pos(), "called only after the number was shown to lie within [MinInt64, MaxInt64]",
+						"scriptNumber.Int64 converts without first excluding values above MaxInt64 / below MinInt64: large numbers wrap instead of saturating")
+				case "(*bscript/interpreter.scriptNumber).Bytes":
+					c.OK("S-bigint", key, call.Pos(), "Bytes uses the conversion for the pre-genesis clamp hint and to extract the low byte of a shrinking copy (low bits are what is wanted)")
+				case "(*bscript/interpreter.scriptNumber).Int":
+					// legacy accessor kept for its tests: it must have no callers in the library
+					callers := 0
+					if node := c.P.CG().Nodes[fn]; node != nil {
+						for _, e := range node.In {
+							if inScope(pkgPathOf(e.Caller.Func)) {
+								callers++
+							}
+						}
+					}
+					c.Check(callers == 0, "S-bigint", key, call.Pos(), "wrapping accessor Int() has no callers in the library",
+						fmt.Sprintf("scriptNumber.Int() wraps numbers beyond 64 bits and is called from %d library site(s): use the saturating Int64()/Int32()", callers))
+				default:
+					c.Fail("S-bigint", key, call.Pos(), "direct (*big.Int).Int64 on a script number outside the saturating accessors: post-genesis numbers beyond 64 bits wrap to their low bits")
+				}
+			}
+		}
+	}
+	c.MinInstances("S-bigint", n, 4)
+}
